@@ -30,6 +30,7 @@ type assocOp struct {
 type assocCase struct {
 	Kind string    `json:"kind"` // catalog | map
 	Key  string    `json:"key"`
+	Val  string    `json:"val,omitempty"` // value type: int (default) any string ptr
 	Ctor string    `json:"ctor"`
 	Init []kv      `json:"init,omitempty"`
 	Ops  []assocOp `json:"ops"`
@@ -43,6 +44,8 @@ func genAssocCase(kind string, keyTypes []string, maxOps, nkeys int) func(core.S
 	return func(s core.Source) assocCase {
 		c := assocCase{Kind: kind}
 		c.Key = core.Pick(s, keyTypes, "key")
+		// value types whose zero value is nil or "" next to other "empty-looking" values (0, false, "")
+		c.Val = core.Pick(s, []string{"int", "int", "any", "string", "ptr"}, "val")
 		c.Ctor = core.Pick(s, []string{"Make", "MakeFromArray", "MakeFromMap", "MakeFromSequence", "MakeFromSequence/catalog", "MakeFromSequence/map"}, "ctor")
 		if c.Ctor != "Make" {
 			n := s.Choose(7, "ninit")
@@ -100,6 +103,46 @@ var (
 	ktRune   = keyType[rune]{[]rune{'a', 'b', 0, 'é', '😀', 'A', '\n', 'z'}, func(a, b rune) bool { return a < b }, func(k rune) string { return fmt.Sprintf("%q", k) }}
 	ktFloat  = keyType[float64]{[]float64{0, math.Copysign(0, -1), 1.5, -2, 1e300, math.Inf(1), -1e-300, 3}, func(a, b float64) bool { return a < b }, func(k float64) string { return fmt.Sprint(k) }}
 	ktAny    = keyType[any]{[]any{"a", int64(1), 1.0, true, nil, 'x', "b", int64(-5)}, nil, func(k any) string { return fmt.Sprintf("%#v", k) }}
+	// float keys among which two NaNs (distinct payloads): a NaN never equals any key, itself included, so every
+	// SetValue with it adds an association that no lookup finds
+	ktNaN = keyType[float64]{[]float64{math.Float64frombits(0x7ff8000000000001), 0, 1.5, math.Float64frombits(0x7ff8000000000002), -2, 3, math.Inf(1), 1e300},
+		func(a, b float64) bool { return a < b }, func(k float64) string {
+			if k != k {
+				return fmt.Sprintf("NaN#%x", math.Float64bits(k)&0xf)
+			}
+			return fmt.Sprint(k)
+		}}
+)
+
+// sameKey is the identity of a key in a view: Go equality, or the same NaN bit pattern
+func sameKey[K comparable](a, b K) bool {
+	if a == b {
+		return true
+	}
+	if a != a && b != b {
+		fa, oka := any(a).(float64)
+		fb, okb := any(b).(float64)
+		return oka && okb && math.Float64bits(fa) == math.Float64bits(fb)
+	}
+	return false
+}
+
+type valType[V any] struct {
+	vals []V // code 0 is the zero value
+	same func(a, b V) bool
+	show func(v V) string
+}
+
+var ptrVals = func() []*int {
+	a, b, c := 0, 0, 5
+	return []*int{nil, &a, &b, &c}
+}()
+
+var (
+	vtInt    = valType[int]{[]int{0, 1, 2, 3}, func(a, b int) bool { return a == b }, func(v int) string { return fmt.Sprint(v) }}
+	vtAny    = valType[any]{[]any{nil, "", int64(0), "x"}, func(a, b any) bool { return a == b }, func(v any) string { return fmt.Sprintf("%#v", v) }}
+	vtString = valType[string]{[]string{"", "a", "b", "\x00"}, func(a, b string) bool { return a == b }, func(v string) string { return fmt.Sprintf("%q", v) }}
+	vtPtr    = valType[*int]{ptrVals, func(a, b *int) bool { return a == b }, func(v *int) string { return fmt.Sprintf("%p", v) }}
 )
 
 func ktPtr() keyType[*int] {
@@ -109,17 +152,32 @@ func ktPtr() keyType[*int] {
 func execAssocCase(c assocCase, _ core.Source) core.Result {
 	switch c.Key {
 	case "string":
-		return execAssoc(c, ktString)
+		return execAssocK(c, ktString)
 	case "int":
-		return execAssoc(c, ktInt)
+		return execAssocK(c, ktInt)
 	case "rune":
-		return execAssoc(c, ktRune)
+		return execAssocK(c, ktRune)
 	case "float64":
-		return execAssoc(c, ktFloat)
+		return execAssocK(c, ktFloat)
+	case "nan":
+		return execAssocK(c, ktNaN)
 	case "any":
-		return execAssoc(c, ktAny)
+		return execAssocK(c, ktAny)
 	default:
-		return execAssoc(c, ktPtr())
+		return execAssocK(c, ktPtr())
+	}
+}
+
+func execAssocK[K comparable](c assocCase, kt keyType[K]) core.Result {
+	switch c.Val {
+	case "any":
+		return execAssoc(c, kt, vtAny)
+	case "string":
+		return execAssoc(c, kt, vtString)
+	case "ptr":
+		return execAssoc(c, kt, vtPtr)
+	default:
+		return execAssoc(c, kt, vtInt)
 	}
 }
 
@@ -129,12 +187,12 @@ type pair[K comparable] struct {
 }
 
 // the common surface of Catalog and Map
-type assocLike[K comparable] interface {
-	col.Associative[K, int]
-	col.Sequential[col.AssociationLike[K, int]]
+type assocLike[K comparable, V any] interface {
+	col.Associative[K, V]
+	col.Sequential[col.AssociationLike[K, V]]
 }
 
-func execAssoc[K comparable](c assocCase, kt keyType[K]) (res core.Result) {
+func execAssoc[K comparable, V any](c assocCase, kt keyType[K], vt valType[V]) (res core.Result) {
 	n := lib.Notation()
 	prop := "C03"
 	if c.Kind == "map" {
@@ -156,6 +214,32 @@ func execAssoc[K comparable](c assocCase, kt keyType[K]) (res core.Result) {
 			model = append(model, pair[K]{k, v})
 		}
 	}
+	hasNaN := func() bool {
+		for _, p := range model {
+			if p.k != p.k {
+				return true
+			}
+		}
+		return false
+	}
+	sameVals := func(got []V, want []int) bool {
+		if len(got) != len(want) {
+			return false
+		}
+		for i := range got {
+			if !vt.same(got[i], vt.vals[want[i]]) {
+				return false
+			}
+		}
+		return true
+	}
+	showVals := func(codes []int) string {
+		parts := []string{}
+		for _, c := range codes {
+			parts = append(parts, vt.show(vt.vals[c]))
+		}
+		return fmt.Sprint(parts)
+	}
 	del := func(k K) int {
 		i := find(k)
 		if i < 0 {
@@ -171,43 +255,43 @@ func execAssoc[K comparable](c assocCase, kt keyType[K]) (res core.Result) {
 			if i > 0 {
 				s += " "
 			}
-			s += fmt.Sprintf("%s:%d", kt.show(p.k), p.v)
+			s += fmt.Sprintf("%s:%s", kt.show(p.k), vt.show(vt.vals[p.v]))
 		}
 		return s + "]"
 	}
-	A := col.Association[K, int](n)
-	initAssocs := func() []col.AssociationLike[K, int] {
-		out := []col.AssociationLike[K, int]{}
+	A := col.Association[K, V](n)
+	initAssocs := func() []col.AssociationLike[K, V] {
+		out := []col.AssociationLike[K, V]{}
 		for _, e := range c.Init {
-			out = append(out, A.Make(kt.keys[e.K], e.V))
+			out = append(out, A.Make(kt.keys[e.K], vt.vals[e.V]))
 		}
 		return out
 	}
-	initMap := func() map[K]int {
-		m := map[K]int{}
+	initMap := func() map[K]V {
+		m := map[K]V{}
 		for _, e := range c.Init {
-			m[kt.keys[e.K]] = e.V
+			m[kt.keys[e.K]] = vt.vals[e.V]
 		}
 		return m
 	}
-	var coll assocLike[K]
-	var catalog col.CatalogLike[K, int]
-	var source assocLike[K] // the collection the constructor was given (sequence forms with a catalog or map as source)
-	seqSource := func() col.Sequential[col.AssociationLike[K, int]] {
+	var coll assocLike[K, V]
+	var catalog col.CatalogLike[K, V]
+	var source assocLike[K, V] // the collection the constructor was given (sequence forms with a catalog or map as source)
+	seqSource := func() col.Sequential[col.AssociationLike[K, V]] {
 		switch c.Ctor {
 		case "MakeFromSequence/catalog":
-			source = col.Catalog[K, int](n).MakeFromArray(initAssocs())
+			source = col.Catalog[K, V](n).MakeFromArray(initAssocs())
 			return source
 		case "MakeFromSequence/map":
-			source = col.Map[K, int](n).MakeFromArray(initAssocs())
+			source = col.Map[K, V](n).MakeFromArray(initAssocs())
 			return source
 		}
-		return col.List[col.AssociationLike[K, int]](n).MakeFromArray(initAssocs())
+		return col.List[col.AssociationLike[K, V]](n).MakeFromArray(initAssocs())
 	}
 	ordered := c.Kind == "catalog"
 	p, payload := lib.Call(func() {
 		if c.Kind == "catalog" {
-			C := col.Catalog[K, int](n)
+			C := col.Catalog[K, V](n)
 			switch c.Ctor {
 			case "Make":
 				catalog = C.Make()
@@ -220,7 +304,7 @@ func execAssoc[K comparable](c assocCase, kt keyType[K]) (res core.Result) {
 			}
 			coll = catalog
 		} else {
-			M := col.Map[K, int](n)
+			M := col.Map[K, V](n)
 			switch c.Ctor {
 			case "Make":
 				coll = M.Make()
@@ -244,32 +328,74 @@ func execAssoc[K comparable](c assocCase, kt keyType[K]) (res core.Result) {
 	for _, e := range c.Init {
 		set(kt.keys[e.K], e.V)
 	}
-	// adoptOrder: where the order is unspecified (MakeFromMap, shuffle) the model takes over the
-	// collection's key order after checking that it is a permutation of the model's keys
-	adoptOrder := func(step int, what string) *core.Violation {
-		keys := coll.GetKeys().AsArray()
-		if len(keys) != len(model) {
-			return core.Violate(prop+"/"+opName(what)+"/size", "step %d after %s: %d keys, expected %d %s", step, what, len(keys), len(model), modelString())
-		}
+	// matchAssocs pairs every listed association with a distinct model entry that has the same key (identity)
+	// and value; it returns the model entries in the listed order, or the first association that has no partner
+	matchAssocs := func(items []col.AssociationLike[K, V]) ([]pair[K], col.AssociationLike[K, V]) {
+		used := make([]bool, len(model))
 		var next []pair[K]
-		for _, k := range keys {
-			i := find(k)
-			if i < 0 {
-				return core.Violate(prop+"/"+opName(what)+"/foreign-key", "step %d after %s: key %s is not in %s", step, what, kt.show(k), modelString())
-			}
-			for _, q := range next {
-				if q.k == k {
-					return core.Violate(prop+"/"+opName(what)+"/duplicate-key", "step %d after %s: key %s listed twice", step, what, kt.show(k))
+		for _, a := range items {
+			found := false
+			for i, m := range model {
+				if !used[i] && sameKey(m.k, a.GetKey()) && vt.same(vt.vals[m.v], a.GetValue()) {
+					used[i], found = true, true
+					next = append(next, m)
+					break
 				}
 			}
-			next = append(next, model[i])
+			if !found {
+				return nil, a
+			}
+		}
+		return next, nil
+	}
+	matchKeys := func(keys []K) (bool, K) {
+		used := make([]bool, len(model))
+		for _, k := range keys {
+			found := false
+			for i, m := range model {
+				if !used[i] && sameKey(m.k, k) {
+					used[i], found = true, true
+					break
+				}
+			}
+			if !found {
+				return false, k
+			}
+		}
+		var zero K
+		return true, zero
+	}
+	showAssoc := func(a col.AssociationLike[K, V]) string {
+		if a == nil {
+			return "<nil association>"
+		}
+		return kt.show(a.GetKey()) + ":" + vt.show(a.GetValue())
+	}
+	// adoptOrder: where the order is unspecified (MakeFromMap, shuffle, a Map) the model takes over the
+	// collection's order after checking that its associations are exactly the model's, each once
+	adoptOrder := func(step int, what string) *core.Violation {
+		var arr []col.AssociationLike[K, V]
+		if p, payload := lib.Call(func() { arr = coll.AsArray() }); p {
+			return core.Violate(prop+"/view-panicked", "step %d after %s: AsArray panicked: %s", step, what, lib.Short(payload))
+		}
+		if len(arr) != len(model) {
+			return core.Violate(prop+"/"+opName(what)+"/size", "step %d after %s: %d associations, expected %d %s", step, what, len(arr), len(model), modelString())
+		}
+		for _, a := range arr {
+			if a == nil {
+				return core.Violate(prop+"/"+opName(what)+"/nil-association", "step %d after %s: the array view contains a nil association; expected %s", step, what, modelString())
+			}
+		}
+		next, odd := matchAssocs(arr)
+		if odd != nil {
+			return core.Violate(prop+"/"+opName(what)+"/foreign-or-duplicate", "step %d after %s: the association %s is not in %s, or is listed more often than it was set", step, what, showAssoc(odd), modelString())
 		}
 		model = next
 		return nil
 	}
 	check := func(step int, what string) *core.Violation {
 		var keys []K
-		var arr, walked []col.AssociationLike[K, int]
+		var arr, walked []col.AssociationLike[K, V]
 		var size int
 		var empty bool
 		if p, payload := lib.Call(func() {
@@ -281,47 +407,33 @@ func execAssoc[K comparable](c assocCase, kt keyType[K]) (res core.Result) {
 			return core.Violate(prop+"/views-disagree-on-size/"+opName(what), "step %d after %s: GetSize %d IsEmpty %v |GetKeys| %d |AsArray| %d |iteration| %d, expected %d associations %s",
 				step, what, size, empty, len(keys), len(arr), len(walked), len(model), modelString())
 		}
+		for _, a := range append(append([]col.AssociationLike[K, V]{}, arr...), walked...) {
+			if a == nil {
+				return core.Violate(prop+"/nil-association/"+opName(what), "step %d after %s: a view contains a nil association; expected %s", step, what, modelString())
+			}
+		}
 		if !ordered {
-			// unordered views: each association exactly once
-			if v := adoptOrder(step, what); v != nil {
-				return v
+			// unordered views: each association exactly once, in every view
+			if _, odd := matchAssocs(arr); odd != nil {
+				return core.Violate(prop+"/AsArray-keys", "step %d after %s: AsArray lists %s, which is foreign or listed too often; expected %s", step, what, showAssoc(odd), modelString())
 			}
-			var order2 []K
-			for _, a := range arr {
-				order2 = append(order2, a.GetKey())
+			if _, odd := matchAssocs(walked); odd != nil {
+				return core.Violate(prop+"/iteration-keys", "step %d after %s: iteration lists %s, which is foreign or listed too often; expected %s", step, what, showAssoc(odd), modelString())
 			}
-			seen := map[K]bool{}
-			for _, k := range order2 {
-				if seen[k] || find(k) < 0 {
-					return core.Violate(prop+"/AsArray-keys", "step %d after %s: AsArray lists key %s twice or it is foreign; expected %s", step, what, kt.show(k), modelString())
-				}
-				seen[k] = true
-			}
-			seen = map[K]bool{}
-			for _, a := range walked {
-				if seen[a.GetKey()] || find(a.GetKey()) < 0 {
-					return core.Violate(prop+"/iteration-keys", "step %d after %s: iteration lists key %s twice or it is foreign; expected %s", step, what, kt.show(a.GetKey()), modelString())
-				}
-				seen[a.GetKey()] = true
+			if ok, odd := matchKeys(keys); !ok {
+				return core.Violate(prop+"/GetKeys-keys", "step %d after %s: GetKeys lists %s, which is foreign or listed too often; expected %s", step, what, kt.show(odd), modelString())
 			}
 		}
 		for i, m := range model {
 			if ordered {
-				if keys[i] != m.k {
+				if !sameKey(keys[i], m.k) {
 					return core.Violate(prop+"/key-order/"+opName(what), "step %d after %s: GetKeys[%d] = %s, expected %s in %s", step, what, i+1, kt.show(keys[i]), kt.show(m.k), modelString())
 				}
-				if arr[i].GetKey() != m.k || arr[i].GetValue() != m.v {
-					return core.Violate(prop+"/array-view/"+opName(what), "step %d after %s: AsArray[%d] = %s:%d, expected %s:%d in %s", step, what, i+1, kt.show(arr[i].GetKey()), arr[i].GetValue(), kt.show(m.k), m.v, modelString())
+				if !sameKey(arr[i].GetKey(), m.k) || !vt.same(arr[i].GetValue(), vt.vals[m.v]) {
+					return core.Violate(prop+"/array-view/"+opName(what), "step %d after %s: AsArray[%d] = %s, expected %s:%s in %s", step, what, i+1, showAssoc(arr[i]), kt.show(m.k), vt.show(vt.vals[m.v]), modelString())
 				}
-				if walked[i].GetKey() != m.k || walked[i].GetValue() != m.v {
-					return core.Violate(prop+"/iteration/"+opName(what), "step %d after %s: iteration[%d] = %s:%d, expected %s:%d", step, what, i+1, kt.show(walked[i].GetKey()), walked[i].GetValue(), kt.show(m.k), m.v)
-				}
-			}
-		}
-		if !ordered {
-			for _, a := range append(append([]col.AssociationLike[K, int]{}, arr...), walked...) {
-				if i := find(a.GetKey()); model[i].v != a.GetValue() {
-					return core.Violate(prop+"/view-value", "step %d after %s: a view pairs %s with %d, expected %d", step, what, kt.show(a.GetKey()), a.GetValue(), model[i].v)
+				if !sameKey(walked[i].GetKey(), m.k) || !vt.same(walked[i].GetValue(), vt.vals[m.v]) {
+					return core.Violate(prop+"/iteration/"+opName(what), "step %d after %s: iteration[%d] = %s, expected %s:%s", step, what, i+1, showAssoc(walked[i]), kt.show(m.k), vt.show(vt.vals[m.v]))
 				}
 			}
 		}
@@ -330,8 +442,8 @@ func execAssoc[K comparable](c assocCase, kt keyType[K]) (res core.Result) {
 			if i := find(k); i >= 0 {
 				want = model[i].v
 			}
-			if got := coll.GetValue(k); got != want {
-				return core.Violate(prop+"/GetValue/"+opName(what), "step %d after %s: GetValue(%s) = %d, expected %d in %s", step, what, kt.show(k), got, want, modelString())
+			if got := coll.GetValue(k); !vt.same(got, vt.vals[want]) {
+				return core.Violate(prop+"/GetValue/"+opName(what), "step %d after %s: GetValue(%s) = %s, expected %s in %s", step, what, kt.show(k), vt.show(got), vt.show(vt.vals[want]), modelString())
 			}
 		}
 		return nil
@@ -360,7 +472,7 @@ func execAssoc[K comparable](c assocCase, kt keyType[K]) (res core.Result) {
 		switch op.Op {
 		case "SetValue":
 			k := kt.keys[op.K]
-			what = fmt.Sprintf("SetValue(%s, %d)", kt.show(k), op.V)
+			what = fmt.Sprintf("SetValue(%s, %s)", kt.show(k), vt.show(vt.vals[op.V]))
 			if find(k) >= 0 {
 				res.Classes = append(res.Classes, "set-existing")
 				if len(model) >= 2 {
@@ -368,7 +480,7 @@ func execAssoc[K comparable](c assocCase, kt keyType[K]) (res core.Result) {
 				}
 			}
 			set(k, op.V)
-			coll.SetValue(k, op.V)
+			coll.SetValue(k, vt.vals[op.V])
 		case "GetValue":
 			lookedUpAfter = lookedUpAfter || reordered // every key is read by check() anyway
 		case "GetValues", "RemoveValues":
@@ -390,15 +502,15 @@ func execAssoc[K comparable](c assocCase, kt keyType[K]) (res core.Result) {
 				}
 			}
 			operand := col.List[K](n).MakeFromArray(ks)
-			var got col.Sequential[int]
+			var got col.Sequential[V]
 			if op.Op == "GetValues" {
 				got = coll.GetValues(operand)
 				lookedUpAfter = lookedUpAfter || reordered
 			} else {
 				got = coll.RemoveValues(operand)
 			}
-			if got == nil || !lib.EqInts(got.AsArray(), append([]int{}, want...)) {
-				v = core.Violate(prop+"/"+op.Op+"/wrong", "step %d: %s returned %v, expected %v", step, what, seqString(got), want)
+			if got == nil || !sameVals(got.AsArray(), want) {
+				v = core.Violate(prop+"/"+op.Op+"/wrong", "step %d: %s returned %v, expected %s", step, what, seqString(got), showVals(want))
 			}
 		case "GetKeys":
 		case "RemoveValue":
@@ -410,8 +522,8 @@ func execAssoc[K comparable](c assocCase, kt keyType[K]) (res core.Result) {
 				reordered = true
 			}
 			want := del(k)
-			if got := coll.RemoveValue(k); got != want {
-				v = core.Violate(prop+"/RemoveValue/wrong", "step %d: %s returned %d, expected %d", step, what, got, want)
+			if got := coll.RemoveValue(k); !vt.same(got, vt.vals[want]) {
+				v = core.Violate(prop+"/RemoveValue/wrong", "step %d: %s returned %s, expected %s", step, what, vt.show(got), vt.show(vt.vals[want]))
 			}
 		case "RemoveAll":
 			model = nil
@@ -449,19 +561,33 @@ func execAssoc[K comparable](c assocCase, kt keyType[K]) (res core.Result) {
 					}
 					return -1
 				}
-				var rank age.RankingFunction[col.AssociationLike[K, int]]
+				var rank age.RankingFunction[col.AssociationLike[K, V]]
+				vindex := func(x V) int {
+					for i, y := range vt.vals {
+						if vt.same(x, y) {
+							return i
+						}
+					}
+					return -1
+				}
 				if op.Ranker == "by-value" {
-					rank = func(a, b col.AssociationLike[K, int]) age.Rank { return rankOfInts(a.GetValue(), b.GetValue()) }
+					rank = func(a, b col.AssociationLike[K, V]) age.Rank { return rankOfInts(vindex(a.GetValue()), vindex(b.GetValue())) }
 					bad = func(a, b pair[K]) bool { return a.v > b.v }
 				} else {
-					rank = func(a, b col.AssociationLike[K, int]) age.Rank {
+					rank = func(a, b col.AssociationLike[K, V]) age.Rank {
 						return rankOfInts(index(b.GetKey()), index(a.GetKey()))
 					}
 					bad = func(a, b pair[K]) bool { return index(a.k) < index(b.k) }
 				}
 				catalog.SortValuesWithRanker(rank)
 			}
-			if v = adoptOrder(step, what); v == nil {
+			// a NaN key ranks as equal to every number under the natural order, which is then not a preorder:
+			// only the permutation is checked
+			unordered := hasNaN() && op.Op == "SortValues"
+			if unordered {
+				res.Classes = append(res.Classes, "sorted-with-NaN-key")
+			}
+			if v = adoptOrder(step, what); v == nil && !unordered {
 				for i := 0; i+1 < len(model); i++ {
 					if bad(model[i], model[i+1]) {
 						v = core.Violate("C03/"+op.Op+"/not-ascending", "step %d: %s left %s before %s", step, what, kt.show(model[i].k), kt.show(model[i+1].k))
@@ -502,7 +628,7 @@ func execAssoc[K comparable](c assocCase, kt keyType[K]) (res core.Result) {
 			return res
 		}
 		before := showAssocsOf(coll, kt)
-		source.SetValue(kt.keys[0], 77)
+		source.SetValue(kt.keys[0], vt.vals[3])
 		source.RemoveValue(kt.keys[1])
 		source.RemoveAll()
 		if now := showAssocsOf(coll, kt); now != before {
@@ -511,14 +637,14 @@ func execAssoc[K comparable](c assocCase, kt keyType[K]) (res core.Result) {
 		}
 	}
 	res.NonTrivial = reordered && lookedUpAfter
-	res.Classes = append(res.Classes, "key-"+c.Key, "ctor-"+c.Ctor)
+	res.Classes = append(res.Classes, "key-"+c.Key, "val-"+c.Val, "ctor-"+c.Ctor)
 	return res
 }
 
-func showAssocsOf[K comparable](a assocLike[K], kt keyType[K]) string {
+func showAssocsOf[K comparable, V any](a assocLike[K, V], kt keyType[K]) string {
 	parts := []string{}
 	for _, x := range a.AsArray() {
-		parts = append(parts, fmt.Sprintf("%s:%d", kt.show(x.GetKey()), x.GetValue()))
+		parts = append(parts, fmt.Sprintf("%s:%#v", kt.show(x.GetKey()), x.GetValue()))
 	}
 	sort.Strings(parts)
 	return fmt.Sprint(parts)
@@ -527,7 +653,7 @@ func showAssocsOf[K comparable](a assocLike[K], kt keyType[K]) string {
 func TestC03(t *testing.T) {
 	r := core.Begin(t, "C03")
 	defer r.End()
-	keyTypes := []string{"string", "int", "rune", "float64", "any", "ptr", "ptr"}
+	keyTypes := []string{"string", "int", "rune", "float64", "nan", "any", "ptr", "ptr"}
 	core.Rapid(r, core.Check[assocCase]{Name: "history", Gen: genAssocCase("catalog", keyTypes, 40, 8), Exec: execAssocCase}, r.N(3000, 30000))
 	// every history of up to 3 (quick) / 4 (thorough) operations over 3 keys, including pointer keys with equal pointees
 	core.DFS(r, core.Check[assocCase]{Name: "small-histories", Gen: genSmallAssoc("catalog", r.N(3, 4)), Exec: execAssocCase, NoJournal: true}, 0)
